@@ -943,6 +943,32 @@ impl<'a> Ctx<'a> {
                 prev_last_seq = prev_last_seq.max(last);
             }
             let script = self.script_mode(main);
+            if script {
+                // per-test limits are not available in single-script mode: refusing the document
+                // is fine, silently running a command past its limit is not
+                for (k, tj) in j.tests.iter().enumerate() {
+                    let (Some(pid), (td, t)) = (tj.pid, list[k]) else { continue };
+                    let Some(lim) = self.sc.effective(main, td, t).timeout_ns else { continue };
+                    let p = &self.facts.procs[pid as usize];
+                    let Some(c) = p.cmds.iter().find(|c| c.nonce == tj.nonce) else { continue };
+                    let until = c.end_t.or(p.comm_end.as_ref().map(|e| e.0)).unwrap_or(c.start_t);
+                    let reported = d.tests.iter().find(|x| x.nonce == tj.nonce).map(|x| x.report.clone());
+                    if until.saturating_sub(c.start_t) > lim + 2 * MS && reported != Some(Report::Timeout) {
+                        out.push(v(
+                            "C14",
+                            "ran-past-limit",
+                            Some(&tj.nonce),
+                            format!(
+                                "single-script mode: test {} has a timeout of {}ns, ran for {}ns and was reported {:?}",
+                                tj.nonce,
+                                lim,
+                                until - c.start_t,
+                                reported
+                            ),
+                        ));
+                    }
+                }
+            }
             let mut seen = BTreeSet::new();
             for (k, tj) in j.tests.iter().enumerate() {
                 let Some(pid) = tj.pid else { continue };
